@@ -3,3 +3,4 @@ from . import spec          # noqa
 from . import c_utils       # noqa
 from . import c_version     # noqa
 from . import c_loader      # noqa
+from . import c_read        # noqa
